@@ -120,8 +120,9 @@ Definition init_state (p : project) (c : config) : cstate :=
   {| s_src := p; s_cfg := c; s_out := fun _ => None; s_cache := None |}.
 
 (* ---- recorded class (known finding) ----
-   8: the command line numbers differ while visualize_deps is on between the generation the record stems
-      from and the current inputs, while the fingerprints agree (line_number is not part of any hash).
+   8: data printed only into dependency-graph.txt - the command line numbers, the number of indexed type
+      definitions - differ while visualize_deps is on between the generation the record stems from and the
+      current inputs, while the fingerprints agree (neither is part of any hash).
    (1..5, 7 repaired by C08-C14-hash-inputs; 6 events by C08-6-events-in-cache; 9 lost file by
     C08-9-presence-test-in-callers: the callers test for the files of the plan before answering up to date.) *)
 Definition kf_C08_unhashed (w : sched) (st : cstate) (g : cgen) : list nat :=
